@@ -93,6 +93,10 @@ type kernel struct {
 	yieldsTotal int64
 	switches    int64
 	stallIdx    int
+	cpuDebt     int64
+	cpuSettles  int64
+	cpuNs       int64
+	clockReads  int64
 
 	h      uint64 // event hash
 	fp     uint64 // schedule fingerprint (switches, non-identity permutations, faults)
@@ -239,6 +243,9 @@ func newKernel(p *plan.Plan) *kernel {
 func (k *kernel) hooks() *simrt.Hooks {
 	h := &simrt.Hooks{MapOrder: k.mapOrder, Open: simOpen, Foreign: k.foreignSeen, Client: k.clientHook}
 	h.Critical = k.critical
+	if k.mode != "race" {
+		h.Clock = k.clockRead
+	}
 	if k.mode == "race" {
 		h.Yield = k.yieldRace
 		h.Go = k.goRace
@@ -628,6 +635,34 @@ func (k *kernel) simNow() int64 {
 	return int64(time.Since(k.simStart))
 }
 
+// settle advances the simulated clock by the CPU time the tasks have used since the last
+// settlement. The running task keeps the token while the clock moves: every other task is
+// parked, so the bubble's clock jumps straight to the end of the sleep (timers that fall due
+// on the way fire, their goroutines queue for the token as usual).
+func (k *kernel) settle() {
+	d := k.cpuDebt
+	if d <= 0 || k.mode == "race" {
+		return
+	}
+	k.cpuDebt = 0
+	k.cpuSettles++
+	k.cpuNs += d
+	// time the machine spent computing is not time spent waiting for a device: kept apart, like clock stalls
+	for _, t := range k.tasks {
+		t.opStallNs += d
+	}
+	time.Sleep(time.Duration(d))
+}
+
+// clockRead is called before the code under test reads the clock.
+func (k *kernel) clockRead() {
+	if k.cur == nil || simrt.ForeignLive() {
+		return
+	}
+	k.clockReads++
+	k.settle()
+}
+
 func (k *kernel) yieldBubble(site int) {
 	if simrt.ForeignLive() {
 		return
@@ -644,6 +679,13 @@ func (k *kernel) yieldBubble(site int) {
 	}
 	if t.opYields > t.budget {
 		panic(budgetPanic{t.opYields})
+	}
+	if c := k.p.Schedule.YieldCostNs; c > 0 {
+		// the simulated CPU: computing takes simulated time
+		k.cpuDebt += c
+		if k.cpuDebt >= 1_000_000 && k.cpuDebt >= 200*c {
+			k.settle()
+		}
 	}
 	if t.noSwitch > 0 {
 		// inside a critical section of the code under test: never preempted,
